@@ -1,6 +1,7 @@
 """C24 - ContentAddressableMemory: sibling agreement of the match masks, encoder pairing, guarded effects."""
 
 from .common import *
+from . import excl
 from ..pm import pmatch, pat, has
 
 REL = "transactron/lib/storage.py"
@@ -12,6 +13,7 @@ def check(ctx):
     comp.require_modelled("C24")
     ex = one_config(comp, "C24")
     push, write, read, remove = (need_body(ex, n, "C24", comp.site) for n in ("push", "write", "read", "remove"))
+    excl.exclusive(ctx, "C24", "CAM", push, write, remove)
     # roles: valids = the register in push.ready
     f = to_formula(push.ready)
     valids = None
